@@ -15,3 +15,4 @@ cp -a $B/verif/. /verif/
 cd /verif
 for p in "$@"; do [ -f known_findings/$p.json ] && python3 tools/findings_fix.py $p $H || true; done
 for p in "$@"; do ./check $p --tier quick 2>&1 | grep -E "^\[|VIOLATION|HARNESS|ERROR" ; done
+/venv/bin/python -m tools.pins --update   # the repaired source is the new reference for the source pins
